@@ -335,6 +335,32 @@ Definition own_init (ds : list dgram) : st bsh (nat * bpc) :=
   ({| b_buf := []; b_pos := 0; b_lock := None; b_out := []; b_inq := ds; b_seen := []; b_cw := false; b_werr := false |},
    [(0%nat, BIdle); (1%nat, BIdle)]).
 
+(* ======================================================================================== *)
+(*  client SOCKS5 UDP-associate tunnel endpoint: internal/client/socks5_tunnel.go udpTunnelConn *)
+(*  SendPacket = [len:2 BE][datagram] (empty datagrams included);                               *)
+(*  ReceivePacket = io.ReadFull(reader, 2); io.ReadFull(reader, len) directly on the stream      *)
+(*  reader — nothing is read ahead, nothing is buffered between calls.                            *)
+(* ======================================================================================== *)
+Inductive tcres := TcOk (d : dgram) | TcErr.
+Definition tc_recv (r : rd) : tcres * rd :=
+  match read_full (length (rest r)) 2 r with
+  | RFOk hdr r1 =>
+    match read_full (length (rest r1)) (de16 hdr) r1 with
+    | RFOk body r2 => (TcOk body, r2)
+    | _ => (TcErr, r1)
+    end
+  | _ => (TcErr, r)
+  end.
+(* the receive loop of the UDP relay: ReceivePacket until it fails *)
+Fixpoint tc_recv_all (fuel : nat) (r : rd) : list dgram :=
+  match fuel with
+  | O => []
+  | S f => match tc_recv r with
+           | (TcOk d, r') => d :: tc_recv_all f r'
+           | (TcErr, _) => []
+           end
+  end.
+
 (* ---- specification vocabulary for "the stream is cut at byte offset cut" ---- *)
 (* datagrams whose record lies completely before the cut / the bytes of the record the cut falls into *)
 Fixpoint complete_before (cut : nat) (ds : list dgram) : list dgram :=
